@@ -231,8 +231,29 @@ def gen_client_abort_case(rng, transport):
     steps += [["probe", "after-abort"]]
     f = n
     steps += [["call", f, 0, 0], ["await_ret", f, 3000], ["sleep", 20], ["probe", "end"]]
-    return {"fam": "client-abort", "transport": transport, "peer": "service", "steps": steps, "hook": False, "n": n, "follow": f,
-            "pending_at_abort": list(range(n))}
+    c = {"fam": "client-abort", "transport": transport, "peer": "service", "steps": steps, "hook": False, "n": n, "follow": f,
+         "pending_at_abort": list(range(n))}
+    if transport in ("tcp", "unix") and rng.random() < 0.6:
+        # the reader of the aborted connection learns of the close only 150 ms later: the call that follows the Abort
+        # must not be given that connection
+        c["late_read_err_ms"] = 150
+        # ... and the census of goroutines waits until that reader has had the time to notice
+        c["steps"] = [s for s in steps if s != ["probe", "after-abort"]]
+        c["steps"][-2] = ["sleep", 400]
+    return c
+
+
+def gen_oversize_request_case(rng):
+    """udp (hook: pending entries are counted): requests that do not fit one datagram are refused with an error; each of them
+    must leave nothing behind in the connection's table of pending calls, and the next ordinary call works"""
+    m = rng.choice([1, 2, 3])
+    steps = []
+    for k in range(m):
+        steps += [["call_big", k, rng.choice([65500, 66000, 70000, 200000])], ["await_ret", k, 2000]]
+    f = m
+    steps += [["call", f, 0, 0], ["await_recv", 1, 3000], ["reply", f], ["await_ret", f, 3000], ["sleep", 20], ["probe", "end"]]
+    return {"fam": "oversize-request", "transport": "udp", "peer": "script", "steps": steps, "hook": True, "n": m, "follow": f,
+            "answered": [], "victims": []}
 
 
 def gen_late_exit_case(transport):
@@ -307,6 +328,8 @@ def gen_cases(ctx, hook):
         for _ in range(1 if quick else 4):
             add(gen_client_abort_case(rng, t))
     if hook:
+        for _ in range(3 if quick else 12):
+            add(gen_oversize_request_case(rng))
         for t in ("tcp", "ws", "udp", "unix"):
             add(gen_late_exit_case(t))
         for t in ("tcp", "unix", "ws", "udp"):
@@ -912,6 +935,43 @@ def run(ctx):
                    {"case": missing[0], "stderr": err[-2000:], "failing_input": True})
         cases = [c for c in cases if c["id"] in byid]
     evaluate(ctx, cases, byid)
+    run_fan(ctx, exe)
+
+
+def run_fan(ctx, exe):
+    """Calls that a plugin hands to several servers on COPIES of the call's context (cluster.Forking, cluster.Broadcast):
+    the copy must keep the call's timeout.  Servers that accept, read and never answer; the call has to come back with an
+    error no later than about its timeout (bound: timeout + 2.5 s), whether the timeout is the client's or the call's own."""
+    cases, cid = [], 700000
+    for plugin in ("forking", "broadcast", "none"):
+        for per_call in (False, True):
+            for servers, silent in ((1, [0]), (2, [0, 1]), (3, [0, 1, 2]), (2, [1]), (3, [0, 2])):
+                if plugin == "none" and servers > 1:
+                    continue
+                if plugin == "forking" and len(silent) < servers:
+                    continue      # forking returns the first success: a healthy server answers
+                cid += 1
+                cases.append({"id": cid, "kind": "fan", "plugin": plugin, "servers": servers, "silent": silent,
+                              "timeout_ms": ctx.rng.choice([150, 250, 400]), "per_call": per_call})
+    rc, obs, err = hv.run_harness_parallel(exe, cases, 8, timeout=600)
+    byid = {o["id"]: o for o in obs if "fatal" not in o}
+    for c in cases:
+        o = byid.get(c["id"])
+        if o is None or o.get("env"):
+            ctx.bump("fan_env")
+            continue
+        ctx.count_case("fan|" + json.dumps({k: c[k] for k in ("plugin", "servers", "silent", "per_call")}, sort_keys=True), True)
+        ctx.bump("family", "fan:" + c["plugin"])
+        where = "%s over %d server(s), silent %s, %s timeout %d ms" % (c["plugin"], c["servers"], c["silent"],
+                                                                       "per-call" if c["per_call"] else "client", c["timeout_ms"])
+        if not o["returned"] or o["elapsed_ms"] > c["timeout_ms"] + 2500:
+            ctx.report("c10:fan-out-call-outlives-its-timeout:" + c["plugin"],
+                       "a call handed to silent servers through %s %s" % (where, "returned after %d ms" % o["elapsed_ms"]
+                                                                          if o["returned"] else "had not returned %d ms later" % o["elapsed_ms"]),
+                       {"case": c, "observation": o, "failing_input": True})
+        elif not o.get("err"):
+            ctx.report("c10:fan-out-call-succeeds-without-answer:" + c["plugin"], "a call over %s returned no error although a "
+                       "server it depends on never answered" % where, {"case": c, "observation": o, "failing_input": True})
 
 
 def evaluate(ctx, cases, byid):
